@@ -29,7 +29,19 @@ func (p *Prog) inlineTarget(g *Func) bool {
 		if pk := g.pkgName(); pk != "keeper" && pk != "service" && pk != "types" {
 			return false
 		}
-		return p.refCount()[g.Obj] == 1
+		n := p.refCount()[g.Obj]
+		if p.refsOther[g.Obj] > 0 {
+			return false
+		}
+		// one call: an extracted block. Several calls: only a helper that is parametrised by a table entry or a
+		// function value (its behaviour is decided at each call site, where it is walked with the actual arguments)
+		if n == 1 {
+			return true
+		}
+		// a value-returning helper stays a call (its value is reasoned about as a unit; its effects resolve when
+		// its summary is instantiated); a procedure parametrised by a table entry is walked per call site
+		procedure := len(g.Res) == 0 || (len(g.Res) == 1 && isErrorType(g.Res[0].Type()))
+		return n > 1 && n <= 8 && procedure && p.parametric(g)
 	}()
 	p.inlineMemo[g] = v
 	return v
@@ -42,6 +54,7 @@ func (p *Prog) refCount() map[*types.Func]int {
 		return p.refs
 	}
 	p.refs = map[*types.Func]int{}
+	p.refsOther = map[*types.Func]int{}
 	for _, f := range p.Funcs {
 		if f.Body == nil || f.Parent != nil {
 			continue
@@ -69,7 +82,7 @@ func (p *Prog) refCount() map[*types.Func]int {
 					if callFun[id] {
 						p.refs[fo]++
 					} else {
-						p.refs[fo] += 2
+						p.refsOther[fo]++
 					}
 				}
 			}
@@ -90,7 +103,7 @@ func (p *Prog) refCount() map[*types.Func]int {
 						}
 						if id != nil {
 							if fo, ok := info.Uses[id].(*types.Func); ok {
-								p.refs[fo] += 2
+								p.refsOther[fo]++
 							}
 						}
 					}
@@ -102,12 +115,45 @@ func (p *Prog) refCount() map[*types.Func]int {
 	return p.refs
 }
 
+// parametric: g takes a function value, or a module-declared struct carrying function values (a table entry).
+func (p *Prog) parametric(g *Func) bool {
+	hasFuncField := func(T types.Type) bool {
+		st, ok := T.Underlying().(*types.Struct)
+		if !ok {
+			return false
+		}
+		nt, named := types.Unalias(T).(*types.Named)
+		if !named || nt.Obj().Pkg() == nil || p.ByPkg[nt.Obj().Pkg().Path()] == nil {
+			return false
+		}
+		for i := 0; i < st.NumFields(); i++ {
+			if _, isFn := st.Field(i).Type().Underlying().(*types.Signature); isFn {
+				return true
+			}
+		}
+		return false
+	}
+	for _, pr := range g.Params {
+		T := pr.Type()
+		if _, isFn := T.Underlying().(*types.Signature); isFn {
+			return true
+		}
+		if pt, ok := T.Underlying().(*types.Pointer); ok {
+			T = pt.Elem()
+		}
+		if hasFuncField(T) {
+			return true
+		}
+	}
+	return false
+}
+
 // inlineHost: the function whose paths contain f's body (f itself unless f is an inline target).
 func (p *Prog) inlineHost(f *Func) *Func {
 	for i := 0; i < 8 && f != nil && p.inlineTarget(f); i++ {
 		h := p.refCaller[f.Obj]
-		if h == nil {
-			break
+		if h == nil || p.refs[f.Obj] != 1 {
+			break // several hosts
 		}
 		f = h
 	}
@@ -236,12 +282,34 @@ func addFactEvents(ev *Event, facts FactSet, out *[]*Event) bool {
 
 const maxSplicedPaths = 4000
 
+// spliceable: the call is expanded in place — the callee is an inline target, or a function literal of one
+// of the functions being expanded that is invoked through a function value known at this point.
+func (p *Prog) spliceable(f *Func, ev *Event) bool {
+	if ev.Kind != EvCall || ev.Defer || ev.CI.fn == nil || ev.CI.fn == f || p.pathsBusy[ev.CI.fn] {
+		return false
+	}
+	g := ev.CI.fn
+	if p.inlineTarget(g) {
+		return true
+	}
+	if ev.CI.name == "dyn" && g.Lit != nil && g.Parent != nil {
+		for _, h := range p.spliceHosts {
+			if h == g.Parent {
+				return true
+			}
+		}
+	}
+	return false
+}
+
 // splice expands the calls of inline targets in the raw paths of f.
 func (p *Prog) splice(f *Func, raw []*Path) []*Path {
+	p.spliceHosts = append(p.spliceHosts, f)
+	defer func() { p.spliceHosts = p.spliceHosts[:len(p.spliceHosts)-1] }()
 	need := false
 	for _, pa := range raw {
 		for _, ev := range pa.Events {
-			if ev.Kind == EvCall && !ev.Defer && ev.CI.fn != nil && ev.CI.fn != f && p.inlineTarget(ev.CI.fn) {
+			if p.spliceable(f, ev) {
 				need = true
 			}
 		}
@@ -266,7 +334,7 @@ func (p *Prog) spliceFrom(f *Func, pa *Path, from int) []*Path {
 	idx := -1
 	for i := from; i < len(pa.Events); i++ {
 		ev := pa.Events[i]
-		if ev.Kind == EvCall && !ev.Defer && ev.CI.fn != nil && ev.CI.fn != f && p.inlineTarget(ev.CI.fn) && !p.pathsBusy[ev.CI.fn] {
+		if p.spliceable(f, ev) {
 			idx = i
 			break
 		}
@@ -276,27 +344,46 @@ func (p *Prog) spliceFrom(f *Func, pa *Path, from int) []*Path {
 	}
 	call := pa.Events[idx]
 	g := call.CI.fn
-	gpaths := p.PathsOf(g)
-	if len(gpaths) == 0 {
-		return p.spliceFrom(f, pa, idx+1)
-	}
-	m := map[string]*Term{}
-	for i, a := range call.CI.args {
-		m[fmt.Sprintf("P%d", i)] = a
-		if i < len(g.Params) {
-			if pt, ok := types.Unalias(g.Params[i].Type()).(*types.Pointer); ok && namedStruct(pt.Elem()) != "" {
-				m[fmt.Sprintf("P%d", i)] = stripAddr(a)
+	// the callee is walked with its parameters bound to the actual arguments and the caller's facts in force
+	// (constant flags select branches, literal lists are unrolled, function values are known); if that is not
+	// possible its generic paths are used with the arguments substituted
+	var gpaths []*Path
+	var sub func(*Term) *Term
+	if sp := p.specialise(g, call, pa.FactsBefore(idx)); sp != nil {
+		gpaths = sp
+		um := p.captureMap(g)
+		sub = func(t *Term) *Term {
+			if t == nil || len(um) == 0 {
+				return t
+			}
+			return t.Subst(um)
+		}
+	} else {
+		gpaths = p.PathsOf(g)
+		m := map[string]*Term{}
+		for i, a := range call.CI.args {
+			m[fmt.Sprintf("P%d", i)] = a
+			if i < len(g.Params) {
+				if pt, ok := types.Unalias(g.Params[i].Type()).(*types.Pointer); ok && namedStruct(pt.Elem()) != "" {
+					m[fmt.Sprintf("P%d", i)] = stripAddr(a)
+				}
 			}
 		}
-	}
-	if call.CI.recv != nil {
-		m["Precv"] = call.CI.recv
-	}
-	sub := func(t *Term) *Term {
-		if t == nil {
-			return nil
+		if call.CI.recv != nil {
+			m["Precv"] = call.CI.recv
 		}
-		return t.Subst(m)
+		for k, v := range p.captureMap(g) {
+			m[k] = v
+		}
+		sub = func(t *Term) *Term {
+			if t == nil {
+				return nil
+			}
+			return t.Subst(m)
+		}
+	}
+	if len(gpaths) == 0 {
+		return p.spliceFrom(f, pa, idx+1)
 	}
 	errIdx, hasErr := g.hasErrorResult()
 	var out []*Path
@@ -397,3 +484,106 @@ func (p *Prog) spliceFrom(f *Func, pa *Path, from int) []*Path {
 	return out
 }
 
+
+// captureMap: for a function literal, the enclosing function's parameters it captures (U_i) in the vocabulary
+// of the expansion in progress: the value the enclosing function's parameter is bound to, else the parameter itself.
+func (p *Prog) captureMap(g *Func) map[string]*Term {
+	if g.Lit == nil || g.Parent == nil {
+		return nil
+	}
+	m := map[string]*Term{}
+	bind := p.spliceBind[g.Parent]
+	for i, pr := range g.Parent.Params {
+		u := fmt.Sprintf("U%d", i)
+		if b, ok := bind[fmt.Sprintf("P%d", i)]; ok {
+			m[u] = b
+		} else {
+			m[u] = atom(fmt.Sprintf("P%d", i)).withType(pr.Type()).withObj(pr)
+		}
+	}
+	return m
+}
+
+// specialise enumerates the paths of g for one call: parameters are bound to the argument terms, the facts of
+// the caller at the call are in force. The resulting events are in the caller's vocabulary.
+func (p *Prog) specialise(g *Func, call *Event, facts FactSet) []*Path {
+	if g.Body == nil || p.pathsBusy[g] {
+		return nil
+	}
+	sig, _ := g.typeSig()
+	args := call.CI.args
+	if sig != nil && sig.Variadic() {
+		np := sig.Params().Len()
+		if len(args) < np-1 {
+			return nil
+		}
+		if call.CI.spread {
+			if len(args) != np {
+				return nil
+			}
+			last := stripSpread(args[np-1])
+			args = append(append([]*Term(nil), args[:np-1]...), last)
+		} else {
+			pack := &Term{Op: "lit", A: []*Term{atom(typeName(sig.Params().At(np - 1).Type()))}, Typ: sig.Params().At(np - 1).Type()}
+			pack.A = append(pack.A, args[np-1:]...)
+			args = append(append([]*Term(nil), args[:np-1]...), pack)
+		}
+	}
+	if len(args) != len(g.Params) {
+		return nil
+	}
+	p.pathsBusy[g] = true
+	defer delete(p.pathsBusy, g)
+	st := &pstate{vars: map[*types.Var]*Term{}, facts: facts.Clone(), visits: map[int32]int{}}
+	st.ev = &evaluator{p: p, f: g, st: st, busy: map[*types.Var]bool{}}
+	bind := map[string]*Term{}
+	for i, pr := range g.Params {
+		v := args[i]
+		if pt, ok := types.Unalias(pr.Type()).(*types.Pointer); ok && namedStruct(pt.Elem()) != "" {
+			v = stripAddr(v)
+		}
+		if isCtxType(pr.Type()) || isKeeperType(pr.Type()) {
+			continue
+		}
+		st.vars[pr] = v
+		bind[fmt.Sprintf("P%d", i)] = v
+	}
+	if g.Recv != nil && call.CI.recv != nil && !isKeeperType(g.Recv.Type()) {
+		st.vars[g.Recv] = call.CI.recv
+		bind["Precv"] = call.CI.recv
+	}
+	initNamedResults(g, st)
+	if p.spliceBind == nil {
+		p.spliceBind = map[*Func]map[string]*Term{}
+	}
+	oldBind, had := p.spliceBind[g]
+	p.spliceBind[g] = bind
+	defer func() {
+		if had {
+			p.spliceBind[g] = oldBind
+		} else {
+			delete(p.spliceBind, g)
+		}
+	}()
+	var out []*Path
+	ok := true
+	func() {
+		defer func() {
+			if r := recover(); r != nil {
+				if _, is := r.(tooManyPaths); is {
+					ok = false
+					return
+				}
+				panic(r)
+			}
+		}()
+		cg := g.CFG()
+		if len(cg.Blocks) > 0 {
+			p.walk(g, cg.Blocks[0], st, &out)
+		}
+	}()
+	if !ok || len(out) == 0 || len(out) > maxSplicedPaths {
+		return nil
+	}
+	return p.splice(g, out)
+}
